@@ -279,7 +279,7 @@ func (w *Writer) indexOfReader(reader *Reader) int {
 
 func (w *Writer) indexOfHead(index int) int {
 	for i, receives := range w.receives {
-		if len(receives) < index {
+		if len(receives) <= index {
 			continue
 		}
 		if receives[index] == nil {
